@@ -21,6 +21,24 @@ CLAIMED = {
              "text. The quantifier is the property's: schemas check_schema accepts (acceptance itself is C11); crashes are "
              "C03's. Exhaustive within the universe bounds, sampled beyond.",
         design="5 C01"),
+    "C02": dict(
+        technique="TLA+ Uri (RFC 3986), Pointer (RFC 6901), reference semantics and Inline in RefTransparency; TLC Extract machine "
+                  "MC_Ref with invariants Transparent / SameAsOriginal and exported scenarios replayed on real validators with "
+                  "stores and a tracing resolver; random extractions trace-validated (Trace_Errors C02 clauses, Trace_Uri)",
+        text="The specification defines the designated schema (RFC 3986 resolution against the base in effect, then the JSON "
+             "Pointer fragment) and Inline, the schema with every reference written out. TLC checks on every final state of "
+             "the Extract machine (every subschema position x hostile definition names x 14 base-URI/store arrangements "
+             "incl. nested ids, chains, array elements, store documents, a cross-document reference evaluated before a "
+             "local one) that the located errors of the schema with references equal those of its inlining and of the "
+             "original, and exports them; each scenario is replayed on a real validator (own store, one validator for all "
+             "instances) and compared with the specification and with the real errors of the inlined schema. Random deep "
+             "schemas get a reference at a random position/name/arrangement; TLC re-derives the inlining and judges. "
+             "Every resolve(scope, ref) -> url event seen by a tracing RefResolver subclass is checked against the RFC 3986 "
+             "algorithm wherever the RFC defines it.",
+        note="Targets identified only by an embedded id are outside the claim (property text). Known finding F10 "
+             "(non-hierarchical base). Recursive references are covered by the official-suite calibration and C03/C07 "
+             "scenarios rather than by the Extract machine (no finite inlining).",
+        design="5 C02"),
     "C03": dict(
         technique="TLA+ Semantics outcome classes + Meta!Accepts; TLC enumerates the shape universe (MC_Shape) incl. reference "
                   "cases and exports the allowed outcome classes per (schema, instance); replayed through 4 entry points x 3 "
